@@ -891,8 +891,9 @@ func getStrHash(next *[]PathNode, key string, N int) *PathNode {
 		if s.Path.str() == key {
 			return s
 		}
+		// wrap around together with the index
 		h = (h + 1) % N
-		s = (*PathNode)(unsafe.Pointer(uintptr(unsafe.Pointer(s)) + sizePathNode))
+		s = (*PathNode)(rt.IndexPtr(*(*unsafe.Pointer)(unsafe.Pointer(next)), sizePathNode, h))
 	}
 	return nil
 }
@@ -901,8 +902,9 @@ func seekIntHash(next unsafe.Pointer, key uint64, N int) int {
 	h := int(key % uint64(N))
 	s := (*PathNode)(rt.IndexPtr(next, sizePathNode, h))
 	for s.Path.t != 0 {
+		// wrap around together with the index
 		h = (h + 1) % N
-		s = (*PathNode)(rt.AddPtr(unsafe.Pointer(s), sizePathNode))
+		s = (*PathNode)(rt.IndexPtr(next, sizePathNode, h))
 	}
 	return h
 }
@@ -914,8 +916,9 @@ func getIntHash(next *[]PathNode, key uint64, N int) *PathNode {
 		if uint64(s.Path.int()) == key {
 			return s
 		}
+		// wrap around together with the index
 		h = (h + 1) % N
-		s = (*PathNode)(rt.AddPtr(unsafe.Pointer(s), sizePathNode))
+		s = (*PathNode)(rt.IndexPtr(*(*unsafe.Pointer)(unsafe.Pointer(next)), sizePathNode, h))
 	}
 	return nil
 }
